@@ -148,7 +148,8 @@ Search::Search(const Position& position, const Limits& limits,
     }
     else if (limits.depth != 0)
     {
-        _search_depth = limits.depth;
+        // the per-depth tables of the search hold MAX_DEPTH iterations
+        _search_depth = std::min<Depth>(limits.depth, MAX_DEPTH);
         _search_time = INFINITE_DURATION;
     }
     else if (limits.movetime != 0)
